@@ -86,6 +86,13 @@ def scenario(shape):
             # reference run (checked in C01); nothing more to prove here
             pass
         chain.check_index(sim, 'resumed' if crashes else 'uninterrupted')
+        if crashes and len(blocks) > 1:
+            # the undo information is part of what was committed: the top block can still be backed out
+            top = sim.chain[-1]
+            sim.backup(top)
+            sim.unspend(top)
+            sim.chain.pop()
+            chain.check_index(sim, 'resumed-then-backed-out', check_fs=False)
         symx.observe('crashes', crashes)
     finally:
         sim.close()
